@@ -8,7 +8,7 @@ From Coq Require Strings.String.
 Import Coq.Strings.String.StringSyntax.
 From Acg Require Import Base.Str Base.Outcome Model.JsonSchemaSem Model.JsonSchemaGen
   Model.JsonSchemaSpec Proofs.JsonSchemaFacts Proofs.JsonSchemaGenFacts
-  Proofs.JsonSchemaClassFacts Gen.GenJsonSchema.
+  Proofs.JsonSchemaClassFacts Proofs.JsonSchemaFlatFacts Gen.GenJsonSchema.
 Import ListNotations.
 Open Scope Z_scope.
 
@@ -133,12 +133,57 @@ Theorem C12_missing_model_type_refuted :
 Proof. eexists. eexists. split; vm_compute; reflexivity. Qed.
 Print Assumptions C12_missing_model_type_refuted.
 
+(** [schema_rejects_single_violation], class level, proved for *flat* classes: whatever
+    the other fields are, if the value of one property is well typed but breaks a length /
+    pattern / list-size constraint inferred for the class (byte arrays: as far as the base64
+    text can express it), the document is rejected at every fuel. *)
+Theorem C12_schema_rejects_single_violation_flat :
+  forall fixp search16 matches b64 int_tok defs cons_of,
+    (forall p s, search16 (fixp p) s = matches p s) ->
+    (forall b, zlen (b64 b) = b64len (zlen b)) ->
+  forall c n s fields p v,
+    flatb c = true -> concrete_definition primitive_map fixp cons_of c = Ok (n, s) ->
+    In p (c_props c) -> lookup (p_name p) fields = Some v ->
+    typedb (p_type p) v = true -> admitsb matches true (c_cons c) (p_type p) v = false ->
+  forall f, validates search16 defs f s (instance_doc b64 int_tok c fields) <> Some true.
+Proof.
+  intros fixp search16 matches b64 int_tok defs cons_of Hfix Hb64.
+  exact (schema_rejects_single_violation_flat primitive_map fixp search16 matches b64 int_tok
+           defs cons_of pm_ok Hfix Hb64).
+Qed.
+Print Assumptions C12_schema_rejects_single_violation_flat.
+
+Definition blob_cls : cls :=
+  mkCls (s2l "Blob") false true [] [] false
+    [mkProp (s2l "data") false true (TAPrim 0 PBytes);
+     mkProp (s2l "tags") true true (TAList 1 (TAPrim 2 PStr))]
+    [(0%N, mkC (Some (Some 2, Some 3)) None); (1%N, mkC (Some (None, Some 2)) None);
+     (2%N, mkC (Some (Some 1, None)) (Some [s2l "p"]))].
+
+Example C12_schema_rejects_flat_nonvacuous :
+  let b64 := fun b : list N => repeat 65%N (Z.to_nat (b64len (zlen b))) in
+  let run fields :=
+    match concrete_definition primitive_map (fun p => p) (fun _ => None) blob_cls with
+    | Ok (_, s) => validates (fun _ _ => true) [] 4 s (instance_doc b64 (fun _ => []) blob_cls fields)
+    | _ => None
+    end in
+  flatb blob_cls = true
+  /\ (run [(s2l "data", VBytes [1%N; 2%N; 3%N]); (s2l "tags", VList [VStr (s2l "a")])],
+      run [(s2l "data", VBytes [1%N; 2%N; 3%N; 4%N])],
+      run [(s2l "data", VBytes [1%N; 2%N]); (s2l "tags", VList [VStr []])],
+      run [(s2l "data", VBytes [1%N; 2%N]);
+           (s2l "tags", VList [VStr (s2l "a"); VStr (s2l "b"); VStr (s2l "c")])])
+     = (Some true, Some false, Some false, Some false).
+Proof. vm_compute. split; reflexivity. Qed.
+Print Assumptions C12_schema_rejects_flat_nonvacuous.
+
 (** [schema_rejects_single_violation] -- full statement (NOT proved): for every class of
     the view and every document obtained from a valid one by breaking one recognised
     constraint of a property (own class / ancestor / constrained primitive; excluding
     tightenings on the items of an inherited list and inexpressible byte lengths),
     [validates (gen ts) (KRef cls) doc <> Some true].
-    Proved part: the property level ([C12_kw_complete]) and the three structural rules
+    Proved part: flat classes ([C12_schema_rejects_single_violation_flat]), the property
+    level ([C12_kw_complete]) and the three structural rules
     above; a conjunct that never accepts makes the whole [allOf] never accept
     ([wrap_all_of_rejects], used in both theorems above). Inheritance chains are covered by
     the correspondence and the oracle. On the example hierarchy: a [Leaf] document whose
